@@ -23,7 +23,7 @@ MCPatRes(p, s) ==
 PatTable == {[p |-> p, s |-> s, m |-> MCPatRes(p, s).m, cap |-> MCPatRes(p, s).cap] : p \in Pats, s \in Strs}
 
 \* ------------------------------------------------------------ builders
-Cred(nm, f, ty, vf, vg) == [name |-> nm, fmt |-> f, typ |-> ty, f |-> vf, g |-> vg]
+Cred(nm, f, ty, vf, vg) == [name |-> nm, cid |-> nm, fmt |-> f, typ |-> ty, f |-> vf, g |-> vg]
 Flt(t, c, e, p) == [type |-> t, const |-> c, enum |-> e, pat |-> p]
 Fld(p, fl, o, i) == [path |-> p, flt |-> fl, opt |-> o, id |-> i]
 Desc(i, fs, f, g) == [id |-> i, fields |-> fs, fmt |-> f, grp |-> g]
@@ -72,6 +72,9 @@ C3 == Cred("c3", "ldp", "AlphaCredential", S("r3"), Absent)
 C12 == Cred("c12", "ldp", "AlphaCredential", A(<<S("r1"), S("r2")>>), Absent)
 C23 == Cred("c23", "jwt", "BetaCredential", A(<<S("r2"), S("r3")>>), Absent)
 Cx == Cred("cx", "ldp", "AlphaCredential", S("zzz"), Absent)
+\* credentials of the WALLET that carry the id of c1 but other claims
+C2s == [Cred("c2s", "jwt", "BetaCredential", S("r2"), Absent) EXCEPT !.cid = "c1"]
+Cxs == [Cred("cxs", "ldp", "AlphaCredential", S("zzz"), Absent) EXCEPT !.cid = "c1"]
 WalletsFormat == {<<C1>>, <<C1j>>, <<C1, C1j>>, <<C1j, C1>>}
 
 \* ------------------------------------------------------------ family: reqs
@@ -117,7 +120,8 @@ WalletsReqs == LET base == {SeqOf(T) : T \in {T \in SUBSET (1..Len(ReqCreds)) : 
 DefsForge == {Def("none", Ds([i \in 1..n |-> {}]), <<>>) : n \in 1..3}
              \cup {Def("none", Ds(<<gA, gA>>), <<From(Shp("pick", {1}, {}, {}), "A")>>),
                    Def("none", Ds(<<gA, gA, gB>>), <<From(Shp("pick", {}, {1}, {2}), "A"), From(All, "B")>>)}
-WalletsForge == {<<C1>>, <<C1j>>, <<C1, C2>>, <<C2, C1>>, <<C12>>, <<C1, C2, C3>>, <<C3, C2, C1j>>, <<Cx, C1, C3>>}
+WalletsForge == {<<C1>>, <<C1j>>, <<C1, C2>>, <<C2, C1>>, <<C12>>, <<C1, C2, C3>>, <<C3, C2, C1j>>, <<Cx, C1, C3>>,
+                 <<C1, C2s>>, <<C2s, C1, C3>>, <<Cxs, C1>>}
 
 \* family mini: one definition, one wallet -- vacuity guard (state graph dumped, every action must label an edge)
 MCDefsOf(f) == CASE f = "mini" -> {Def("none", Ds(<<{}, {}>>), <<>>)} [] f = "filters" -> DefsFilters [] f = "format" -> DefsFormat [] f = "reqs" -> DefsReqs [] f = "forge" -> DefsForge
@@ -127,6 +131,11 @@ MCShapesOf(f) == IF f = "forge" THEN AllShapes ELSE IF f = "mini" THEN {"ldp", "
 AllMutKinds == {"drop", "empty", "permute", "forge-path", "subject", "bad-path", "dup-shadow", "dup-trail", "dup-same", "surplus",
                 "wrong-format", "nested", "shape"}
 MCMutKindsOf(f) == IF f \in {"forge", "mini"} THEN AllMutKinds ELSE {}
+AllEnvKinds == {"plain", "same-id-back", "same-id-front", "same-id-fmt-back", "same-content-back", "same-content-front"}
+MCEnvKindsOf(f) == IF f \in {"forge", "mini"} THEN AllEnvKinds ELSE {"plain"}
+MCTamperMutKinds == {"forge-path", "permute", "dup-shadow", "dup-trail", "drop", "surplus"}
+\* hostile envelopes are explored in these shapes
+MCTamperShapes == {"ldp", "jwt", "jwt-arr"}
 \* envelope shapes the driver presents the wallet's own submission in
 EmitShapes(f) == IF f = "forge" THEN <<>> ELSE <<"ldp", "jwt", "ldp-arr", "jwt-arr">>
 
@@ -150,12 +159,14 @@ Class ==
          THEN "unstable-selection"
     ELSE "none"
 
-SubsOf == UNION { LET sb == BuildSub(def, out, wallet, sh, Dev)
-                      vps == VPs(sh, PresentedCreds) IN
-                  {[shape |-> sh, mut |-> m.mut, entries |-> m.entries,
-                    must |-> IF ~RefOK(def, m.entries, sh, vps, Dev) THEN "reject" ELSE IF m.mut = "none" THEN "accept" ELSE "any",
-                    pred |-> CodeVerdict(def, m.entries, sh, vps, Dev)] :
-                   m \in MutSet(sb, sh, PresentedCreds, DescIds, MCMutKindsOf(fam))} : sh \in MCShapesOf(fam) }
+SubsOf == UNION { LET pres == Tamper(PresentedCreds, x[2])
+                      sb == SubFor(x[1], x[2])
+                      vps == VPs(x[1], pres) IN
+                  {[shape |-> x[1], ek |-> x[2], env |-> IF x[2] = "plain" THEN <<>> ELSE pres, mut |-> m.mut, entries |-> m.entries,
+                    must |-> IF ~RefOK(def, m.entries, x[1], vps, Dev) THEN "reject" ELSE IF m.mut = "none" THEN "accept" ELSE "any",
+                    pred |-> CodeVerdict(def, m.entries, x[1], vps, Dev)] :
+                   m \in MutSet(sb, x[1], pres, DescIds, MutKindsFor(x[2]))} :
+                  x \in {y \in MCShapesOf(fam) \X MCEnvKindsOf(fam) : EnvOK(y[1], y[2]) /\ (y[2] = "plain" \/ y[1] \in MCTamperShapes)} }
 
 CaseRec ==
     [fam |-> fam, def |-> def, wallet |-> wallet, shapes |-> EmitShapes(fam),
